@@ -6,7 +6,7 @@
 (***************************************************************************)
 EXTENDS AstGen, Json, IOUtils
 
-CONSTANT MaxAllNodes
+CONSTANTS MaxAllNodes, WrapStride
 
 \* all ASTs, typed or not (binary/unary/ternary shapes; thresh with <= 2 children)
 AllAst[n \in 1..MaxAllNodes] ==
@@ -18,13 +18,18 @@ AllAst[n \in 1..MaxAllNodes] ==
        \cup {Thresh(k, <<x>>) : k \in {1, 2}, x \in AllAst[n - 1]}
        \cup UNION {{Thresh(k, <<x, y>>) : k \in {0, 1, 2, 3}, x \in AllAst[i], y \in AllAst[n - 1 - i]} : i \in 1..(n - 2)}
 
-Typed == {x.a : x \in {y \in WTUpTo(MaxNodes) : KeyCanonical(y.a)}}
+Typed0 == {x.a : x \in {y \in WTUpTo(MaxNodes) : KeyCanonical(y.a)}}
+TypedComp == (CompKept \cup Comp2Kept \cup PrefixedKept) \ Typed0
+TypedWrap == ({x.a : x \in {y \in WrappedTyped(WrapStride, CompSeed) : KeyCanonical(y.a)}} \ Typed0) \ TypedComp
+Typed == Typed0 \cup TypedComp \cup TypedWrap
 Untyped == {a \in UNION {AllAst[i] : i \in 1..MaxAllNodes} : KeyCanonical(a)} \ Typed
 
 CaseSeq ==
-  LET S == SetToSeq(Typed)  U == SetToSeq(Untyped) IN
+  LET S == SetToSeq(Typed0)  C == SetToSeq(TypedComp)  W == SetToSeq(TypedWrap)  U == SetToSeq(Untyped) IN
   [i \in 1..Len(S) |-> [id |-> i, ctx |-> Ctx, ast |-> S[i], dom |-> "wt"]]
-  \o [i \in 1..Len(U) |-> [id |-> Len(S) + i, ctx |-> Ctx, ast |-> U[i], dom |-> "all"]]
+  \o [i \in 1..Len(C) |-> [id |-> Len(S) + i, ctx |-> Ctx, ast |-> C[i], dom |-> "comp"]]
+  \o [i \in 1..Len(W) |-> [id |-> Len(S) + Len(C) + i, ctx |-> Ctx, ast |-> W[i], dom |-> "wrap"]]
+  \o [i \in 1..Len(U) |-> [id |-> Len(S) + Len(C) + Len(W) + i, ctx |-> Ctx, ast |-> U[i], dom |-> "all"]]
 
 ASSUME ndJsonSerialize(IOEnv.OUT, CaseSeq)
 ASSUME PrintT("GEN " \o ToJson(<<"cases", Len(CaseSeq), Cardinality(Typed), Cardinality(Untyped)>>))
